@@ -244,4 +244,161 @@ Proof.
   - apply K. exact (L_next_cmd s1 Hs1).
 Qed.
 
+(* ================= 3. a raw line of the list as service calls ================= *)
+Lemma L_osteps_0 : forall s q, osteps 0 s q s q [].
+Proof. intros s q h t. exists []. repeat split; reflexivity. Qed.
+
+Lemma L_raw_unit : forall s q txt, idle s -> k_state (k s) = CS_FLUSH_WAIT -> k_position (k s) = 0 ->
+  k_wbuf (k s) = WB_MAIN -> k_wstate (k s) = WS_AFTER -> k_wafter (k s) = CS_PRINT_CMD ->
+  In 0%N (cbuf s) -> text_of (cbuf s) = txt ->
+  exists s3, osteps (2 + length txt) s q s3 q txt /\ L_R s3 (setk_state CS_PRINT_CMD s).
+Proof.
+  intros s q txt Hi Hs Hp Hb Hw Ha H0 HT.
+  assert (H1 : osteps 1 s q (setk_state CS_FLUSH s) q []).
+  { apply (Lemmas_E2E.ostep_pure D Hmx s q (setk_state CS_FLUSH) Hi). intros h t. unfold cmd_service.
+    cbn [Fsm.st mkw]. rewrite Hs. unfold busy, upd_st, process_io_write_wait. cbn [Fsm.st mkw].
+    destruct Hi as [U _]. rewrite U. reflexivity. }
+  set (s0 := setk_state CS_FLUSH s).
+  assert (Hi0 : idle s0) by exact Hi.
+  assert (T0 : text_of (Lemmas_C11.wb_text (k_wbuf (k s0)) (cbuf s0)) = txt).
+  { change (k_wbuf (k s0)) with (k_wbuf (k s)). rewrite Hb. exact HT. }
+  assert (I0 : In 0%N (Lemmas_C11.wb_text (k_wbuf (k s0)) (cbuf s0))).
+  { change (k_wbuf (k s0)) with (k_wbuf (k s)). rewrite Hb. exact H0. }
+  pose proof (Lemmas_C11.phase_c_after s0 txt Hp Hw I0 T0) as P3.
+  change (k_wafter (k s0)) with (k_wafter (k s)) in P3. rewrite Ha in P3. cbv zeta in P3.
+  cbn [cstate_beq] in P3.
+  pose proof (Lemmas_E2E.flush_osteps D Hmx (S (length txt)) s0 q Hi0) as F.
+  rewrite P3 in F. cbn [fst snd] in F.
+  eexists. split.
+  - change (2 + length txt) with (1 + S (length txt)).
+    eapply Lemmas_E2E.osteps_cast; [eapply Lemmas_E2E.osteps_trans; [exact H1|] | reflexivity | reflexivity].
+    apply F. intros j Hj.
+    rewrite Lemmas_C11.run_flush_c_text_state by (rewrite (Lemmas_C11.len_phase_rest0 s0 txt Hp T0); lia).
+    reflexivity.
+  - reflexivity.
+Qed.
+
+(* ================= 4. the iteration of the list printer as service calls ================= *)
+Lemma L_list_run_app : forall fuel s acc, exists new, fst (list_run D fuel s acc) = acc ++ new.
+Proof.
+  induction fuel as [|f IH]; intros s acc; [exists []; rewrite app_nil_r; reflexivity|].
+  rewrite Lemmas_C19.list_run_S. destruct (cstate_beq (k_state (k s)) CS_PRINT_CMD).
+  2:{ exists []. rewrite app_nil_r. reflexivity. }
+  cbv zeta.
+  destruct (cstate_beq (k_state (k (pcl s))) CS_FLUSH_WAIT && cstate_beq (k_wafter (k (pcl s))) CS_PRINT_CMD).
+  - destruct (IH (setk_state CS_PRINT_CMD (pcl s)) (acc ++ [text_of (cbuf (pcl s))])) as [new E].
+    exists ([text_of (cbuf (pcl s))] ++ new). rewrite E, <- app_assoc. reflexivity.
+  - apply IH.
+Qed.
+
+Lemma L_pcl_step : forall s q, idle s -> k_state (k s) = CS_PRINT_CMD -> osteps 1 s q (pcl s) q [].
+Proof.
+  intros s q Hi Hs. apply (Lemmas_E2E.ostep_pure D Hmx s q pcl Hi). intros h t. unfold cmd_service.
+  cbn [Fsm.st mkw]. rewrite Hs. reflexivity.
+Qed.
+
+Lemma L_list_osteps : forall bsz q fuel a b acc out af new,
+  L_R a b -> idle b -> length (cbuf b) = bsz -> L_G b ->
+  list_run D fuel a acc = (out, af) -> k_state (k af) = CS_FLUSH_WAIT ->
+  out = acc ++ new -> forallb (fun l => length l <? bsz) new = true ->
+  exists calls bf, osteps calls b q bf q (concat new) /\ L_R af bf /\ L_fr b bf /\ L_G bf.
+Proof.
+  intros bsz q. induction fuel as [|f IH]; intros a b acc out af new HR Hi Hlen HG Hrun Hend Hout Hfit.
+  - cbn [list_run] in Hrun. injection Hrun as <- <-.
+    assert (new = []) by (apply (app_inv_head acc); rewrite app_nil_r; symmetry; exact Hout). subst new.
+    exists 0, b. split; [apply L_osteps_0|]. split; [exact HR|]. split; [apply L_fr_refl | exact HG].
+  - rewrite Lemmas_C19.list_run_S in Hrun.
+    destruct (cstate_beq (k_state (k a)) CS_PRINT_CMD) eqn:Es.
+    2:{ injection Hrun as <- <-.
+        assert (new = []) by (apply (app_inv_head acc); rewrite app_nil_r; symmetry; exact Hout). subst new.
+        exists 0, b. split; [apply L_osteps_0|]. split; [exact HR|]. split; [apply L_fr_refl | exact HG]. }
+    apply internal_cstate_dec_bl in Es.
+    pose proof (L_R_same a b HR) as Sab.
+    assert (Hsb : k_state (k b) = CS_PRINT_CMD) by (rewrite <- (ls_state _ _ Sab); exact Es).
+    pose proof (L_R_pcl a b HR) as HR1.
+    pose proof (L_pcl_step b q Hi Hsb) as O1.
+    destruct (L_pcl_frame b Hsb) as [F1 G1].
+    pose proof (L_R_same _ _ HR1) as S1.
+    assert (Hi1 : idle (pcl b)) by (apply (Lemmas_C02e.idle_of_u b); [apply F1 | exact Hi]).
+    assert (Hlen1 : length (cbuf (pcl b)) = bsz) by (destruct F1 as (_ & _ & _ & _ & E); rewrite E; exact Hlen).
+    cbv zeta in Hrun.
+    destruct (cstate_beq (k_state (k (pcl a))) CS_FLUSH_WAIT && cstate_beq (k_wafter (k (pcl a))) CS_PRINT_CMD) eqn:Ec.
+    + apply andb_true_iff in Ec. destruct Ec as [Ec1 Ec2].
+      apply internal_cstate_dec_bl in Ec1. apply internal_cstate_dec_bl in Ec2.
+      rewrite (ls_state _ _ S1) in Ec1. rewrite (ls_wafter _ _ S1) in Ec2.
+      rewrite (ls_cbuf _ _ S1) in Hrun.
+      set (l := text_of (cbuf (pcl b))) in *.
+      destruct (L_list_run_app f (setk_state CS_PRINT_CMD (pcl a)) (acc ++ [l])) as [new' En].
+      rewrite Hrun in En. cbn [fst] in En.
+      assert (new = l :: new').
+      { apply (app_inv_head acc). rewrite <- Hout, En, <- app_assoc. reflexivity. }
+      subst new. cbn [forallb] in Hfit. apply andb_true_iff in Hfit. destruct Hfit as [Hl Hfit].
+      apply Nat.ltb_lt in Hl.
+      destruct (G1 Ec1) as (Hp & [(_ & Hb & Hw) | (Hx & _)]); [|rewrite Hx in Ec2; discriminate].
+      assert (H0 : In 0%N (cbuf (pcl b))) by (apply L_text_in0; fold l; rewrite Hlen1; exact Hl).
+      destruct (L_raw_unit (pcl b) q l Hi1 Ec1 Hp Hb Hw Ec2 H0 eq_refl) as (b3 & O2 & R3).
+      pose proof (L_R_same _ _ R3) as S3.
+      assert (HR3 : L_R (setk_state CS_PRINT_CMD (pcl a)) b3).
+      { eapply L_R_trans; [apply L_R_setk_state; exact HR1 | apply L_R_sym; exact R3]. }
+      assert (F3 : L_fr (pcl b) b3).
+      { unfold L_fr. rewrite (ls_u _ _ S3), (ls_mem _ _ S3), (ls_cr _ _ S3), (ls_hold _ _ S3), (ls_cbuf _ _ S3).
+        repeat split; reflexivity. }
+      destruct (IH (setk_state CS_PRINT_CMD (pcl a)) b3 (acc ++ [l]) out af new' HR3) as (c3 & bf & O3 & Rf & Ff & Gf).
+      * apply (Lemmas_C02e.idle_of_u (pcl b)); [apply F3 | exact Hi1].
+      * destruct F3 as (_ & _ & _ & _ & E). rewrite E. exact Hlen1.
+      * apply L_G_not. rewrite (ls_state _ _ S3). discriminate.
+      * exact Hrun.
+      * exact Hend.
+      * exact En.
+      * exact Hfit.
+      * exists (1 + ((2 + length l) + c3)), bf. split; [|split; [exact Rf|split; [|exact Gf]]].
+        -- cbn [concat].
+           eapply Lemmas_E2E.osteps_cast;
+             [exact (Lemmas_E2E.osteps_trans D _ _ _ _ _ _ _ _ _ _ O1
+                       (Lemmas_E2E.osteps_trans D _ _ _ _ _ _ _ _ _ _ O2 O3)) | reflexivity | reflexivity].
+        -- exact (L_fr_trans _ _ _ F1 (L_fr_trans _ _ _ F3 Ff)).
+    + destruct (IH (pcl a) (pcl b) acc out af new HR1 Hi1 Hlen1 G1 Hrun Hend Hout Hfit) as (c3 & bf & O3 & Rf & Ff & Gf).
+      exists (1 + c3), bf. split; [|split; [exact Rf|split; [|exact Gf]]].
+      * exact (Lemmas_E2E.osteps_trans D _ _ _ _ _ _ _ _ _ _ O1 O3).
+      * exact (L_fr_trans _ _ _ F1 Ff).
+Qed.
+
+(* ================= 5. the name lookup keeps the disable flags ================= *)
+Definition L_dis (s : state) : list bool * list bool := (dis_cmd s, dis_grp s).
+
+Lemma L_dis_update : forall s, L_dis (update_command D s) = L_dis s.
+Proof.
+  intros s. rewrite Lemmas_C02.update_command_unf.
+  destruct (cmd_by_index (d_groups D) (k_index (k s))) as [c|]; [|reflexivity].
+  destruct (get_cmd_state D s (k_index (k s))) as [cs|]; [|reflexivity].
+  unfold Lemmas_C02.upd_fin, Lemmas_C02.upd_s1, set_cmd_state, prepare_search_command.
+  Lemmas_E2E.destr_all; reflexivity.
+Qed.
+
+Lemma L_dis_search : forall s, L_dis (search_command D s) = L_dis s.
+Proof.
+  intros s. unfold search_command.
+  destruct (get_cmd_state D s (k_index (k s))) as [cs|]; [|reflexivity].
+  cbv zeta. Lemmas_C11.scbn. Lemmas_E2E.destr_all; reflexivity.
+Qed.
+
+Lemma L_dis_iter_upd : forall m s, L_dis (iter m (update_command D) s) = L_dis s.
+Proof. induction m as [|m IH]; intros s; [reflexivity|]. simpl iter. rewrite IH. apply L_dis_update. Qed.
+
+Lemma L_dis_ncs : forall s ch, L_dis (name_char_step D s ch) = L_dis s.
+Proof. intros s ch. unfold name_char_step. rewrite L_dis_iter_upd. reflexivity. Qed.
+
+Lemma L_dis_fold_ncs : forall t s, L_dis (fold_left (name_char_step D) t s) = L_dis s.
+Proof. induction t as [|c t IH]; intros s; [reflexivity|]. simpl fold_left. rewrite IH. apply L_dis_ncs. Qed.
+
+Lemma L_dis_run : forall s t, L_dis (Lemmas_C02e.run D s t) = L_dis s.
+Proof. intros s t. unfold Lemmas_C02e.run. rewrite L_dis_fold_ncs. reflexivity. Qed.
+
+Lemma L_dis_search_run : forall fuel s, L_dis (search_run D fuel s) = L_dis s.
+Proof.
+  induction fuel as [|f IH]; intros s; [reflexivity|]. simpl search_run.
+  destruct (cstate_beq (k_state (k s)) CS_SEARCH_COMMAND); [|reflexivity].
+  rewrite IH. apply L_dis_search.
+Qed.
+
 End E2Ec.
